@@ -439,8 +439,13 @@ fn validate(ctx: &Context<impl Channel>) -> Result<(), Error> {
     if p_out.is_empty() {
         return Err(Error::MissingOutputParties);
     }
-    for output_party in p_out {
+    for (k, output_party) in p_out.iter().enumerate() {
         if *output_party >= p_max {
+            return Err(Error::InvalidOutputParty(*output_party));
+        }
+        // The output phase sends one message per entry of p_out but receives one per party:
+        // a repeated index desynchronises the channel to that party.
+        if p_out[..k].contains(output_party) {
             return Err(Error::InvalidOutputParty(*output_party));
         }
     }
